@@ -4,6 +4,7 @@
 //@ class Hash
 //@ class Hashdh
 //@ class HashBdh tu=Hash/HashBdh.cpp
+//@ class HashBBdh tu=Hash/HashBBdh.cpp
 //@ fn bitwisehash
 //@   requires(htsize >= 1 && len <= 100000 && (len == 0 || __CPROVER_r_ok(word, len)))
 //@   ensures(RET < htsize)
@@ -49,6 +50,13 @@
 //@   loop 1: assigns(i, hval, pos, g_acc_idx, g_acc_val)
 //@   loop 1: invariant(1 <= i && i <= this->tsize && hval < this->tsize)
 //@   loop 1: decreases(this->tsize - i)
+//@ fn HashBBdh::search tu=Hash/HashBBdh.cpp
+//@   requires(HASH_WF(this) && g_data_len <= 300000 && len <= 100000 && len <= g_data_len && len == g_query_len && __CPROVER_r_ok(this->data, g_data_len) && (len == 0 || __CPROVER_r_ok(w, len)))
+//@   ensures(RET == (size_t)-1 || RET < g_ones)
+//@   assigns(g_acc_idx, g_acc_val)
+//@   loop 1: assigns(i, hval, pos, off_pos, g_acc_idx, g_acc_val)
+//@   loop 1: invariant(1 <= i && i <= this->tsize && hval < this->tsize)
+//@   loop 1: decreases(this->tsize - i)
 //@ fn HashBdh::load tu=Hash/HashBdh.cpp
 //@   requires(g_set_cnt == 0 && g_ones <= 100000 && __CPROVER_rw_ok(fp, sizeof(*fp)) && fp->pos == 0 && fp->cap == 64 && __CPROVER_r_ok(fp->buf, 64))
 //@   ensures(RET != NULL && RET->n == g_ones && g_set_cnt == g_ones && (g_ones >= 1 ==> g_set_last == g_ones - 1))
@@ -67,6 +75,7 @@
 //@ ob hash_scmp entry=h_scmp enforce=Hash__scmp loops tier=P props=C14,C07 kind=statement
 //@ ob hashdh_search entry=h_dh_search enforce=Hashdh__search replace=bitwisehash,step_value,BitSequence__access,BitSequence__rank1,LogSequence__getField,Hash__scmp loops tier=P props=C02,C07,C12,C14 kind=representation timeout=900
 //@ ob hashbdh_search entry=h_bdh_search enforce=HashBdh__search replace=bitwisehash,step_value,BitSequence__access,BitSequence__rank1,LogSequence__getField,Hash__scmp loops tier=P props=C02,C07,C12,C14 kind=representation timeout=900
+//@ ob hashbbdh_search entry=h_bbdh_search enforce=HashBBdh__search replace=bitwisehash,step_value,BitSequence__access,BitSequence__rank1,BitSequence__select1,Hash__scmp loops tier=P props=C02,C07,C12,C14 kind=representation timeout=900
 //@ ob hashbdh_load entry=h_bdh_load enforce=HashBdh__load replace=LogSequence__ctor__vstream_p,LogSequence__ctor__unsigned_int__size_t,BitSequence__load,BitSequence__select1,LogSequence__getField,LogSequence__setField,LogSequence__getNumbits,LogSequence__delete loops tier=P props=C06,C12 kind=representation timeout=900
 #include "vstream.h"
 #define TSMAX ((size_t)1 << 24)
@@ -84,7 +93,7 @@ __CPROVER_requires(i < TSMAX) __CPROVER_ensures(g_acc_idx == i && g_acc_val == R
 size_t BitSequence__rank1(BitSequence *this, size_t i)
 __CPROVER_requires(i < TSMAX) __CPROVER_ensures(RET <= i + 1 && RET <= g_ones && ((g_acc_idx == i && g_acc_val) ==> RET >= 1)) __CPROVER_assigns();
 size_t BitSequence__select1(BitSequence *this, size_t i)
-__CPROVER_requires(this == g_bits && i >= 1 && i <= g_ones) __CPROVER_ensures(RET < TSMAX) __CPROVER_assigns();
+__CPROVER_requires(i >= 1 && i <= g_ones) __CPROVER_ensures(RET < TSMAX && RET <= g_data_len - g_query_len) __CPROVER_assigns();
 BitSequence *BitSequence__load(struct vstream *fp)
 __CPROVER_requires(1) __CPROVER_ensures(RET == g_bits) __CPROVER_assigns();
 /* ASSUMES: every offset stored in the hash table leaves room for the whole (encoded) query inside the data array, i.e. Hash::scmp never compares past the end of the data -- nothing in the code establishes this for a query longer than the last stored string */
@@ -146,5 +155,12 @@ void h_bdh_load(void) {
   for (int k = 0; k < 8; k++) buf[8 + k] = (in_n >> (8 * k)) & 255;
   g_set_cnt = 0;
   HashBdh__load(&in);
+  REACH_POINT();
+}
+void h_bbdh_search(void) {
+  HashBBdh *h = malloc(sizeof(HashBBdh)); __CPROVER_assume(h != NULL);
+  size_t in_len; uchar *w = mk_word(in_len); g_query_len = in_len;
+  size_t in_dl; __CPROVER_assume(in_dl <= 300000); h->data = malloc(in_dl); __CPROVER_assume(h->data != NULL); g_data_len = in_dl;
+  HashBBdh__search(h, w, in_len);
   REACH_POINT();
 }
